@@ -41,6 +41,9 @@ def rand_value(rng, kind):
         return rng.choice([-96, -1, 1, 3, 32, 64, 65, 200, 4096]) / SCALE
     if kind == 'big':
         return float(rng.choice([2 ** 40 + 1, 2 ** 33, 7, 1]))
+    if kind == 'tiny':
+        # magnitudes whose squares, sums with ordinary values or comparisons with a tolerance lose them
+        return rng.choice([1e-170, -1e-170, 5e-324, 1e-300, 2.5e-9, -4e-12, 1e-8, 1.0, 3.0])
     raise ValueError(kind)
 
 
